@@ -98,4 +98,173 @@ theorem endOfStep_toRunning (d : Cfg) (fn : Nat) (args : List Val) (kw : List (N
   unfold enterNext enterState setState enteredHooks enteredNotif finally_ setInterrupt toRunning
   simp [SObj.label, terminal, allowed, e5, hi, e3, e4]
 
+/-- the state the first step of the next tick enters (when `okFirst`): RUNNING, with the continuation returned by the user
+code or the value the wait was resumed with -/
+def firstTarget (c : Cfg) : Option SObj :=
+  match c.pc with
+  | .inUser b => (match b.out with | .ret (.cont fn a k) => some (.running fn a k) | _ => none)
+  | .awaitWaiting wf =>
+      match c.st, c.wfs[wf]? with
+      | .waiting fn _ _ _, some (.result v) => some (.running fn (match v with | some x => [x] | none => []) [])
+      | _, _ => none
+  | _ => none
+
+theorem firstStep_eq (d : Cfg) (hok : okFirst d = true) (hi : d.interrupt = none) (hl : terminal d.st.label = false)
+    (hc : d.closed = false) :
+    firstStep d = match firstTarget d with | some s => toRunning d s | none => d := by
+  unfold okFirst at hok
+  split at hok
+  · rename_i hpc
+    unfold firstStep firstTarget; rw [hpc]
+  · rename_i b hpc
+    simp only [Bool.and_eq_true, beq_iff_eq] at hok
+    unfold firstStep firstTarget; rw [hpc]; dsimp only
+    split at hok
+    · rename_i fn a k hout
+      rw [hout]; dsimp only
+      exact endOfStep_toRunning d fn a k hi hl hc
+    · cases hok.2
+  · rename_i wf hpc
+    unfold firstStep firstTarget; rw [hpc]; dsimp only
+    split at hok
+    · rename_i fn wf' wk aw v hst hw
+      rw [hst, hw]; dsimp only
+      exact endOfStep_toRunning d fn _ [] hi hl hc
+    · cases hok
+  · cases hok
+
+/-- the passive part of a configuration that the wake-up requests of the fourth class touch: the awaited external futures and
+the scheduled callbacks -/
+def upd (c : Cfg) (E : List EFut) (R : List Cb) : Cfg := { c with efs := E, ready := R }
+
+theorem upd_self (c : Cfg) : upd c c.efs c.ready = c := by cases c; rfl
+
+theorem exitState_upd (d : Cfg) (E : List EFut) (R : List Cb) : exitState (upd d E R) = upd (exitState d) E R := by
+  unfold exitState upd
+  dsimp only
+  split
+  · split <;> rfl
+  · rfl
+
+theorem toRunning_upd (d : Cfg) (s : SObj) (E : List EFut) (R : List Cb) : toRunning (upd d E R) s = upd (toRunning d s) E R := by
+  unfold toRunning
+  rw [exitState_upd]
+  rfl
+
+/-- **the first step of a tick commutes with a change of the awaited futures' outcomes and of the scheduled callbacks** when it
+is a transition into RUNNING (or nothing) -/
+theorem firstStep_upd (d : Cfg) (E : List EFut) (R : List Cb) (hok : okFirst d = true) (hi : d.interrupt = none)
+    (hl : terminal d.st.label = false) (hc : d.closed = false) : firstStep (upd d E R) = upd (firstStep d) E R := by
+  rw [firstStep_eq (upd d E R) hok hi hl hc, firstStep_eq d hok hi hl hc]
+  show (match firstTarget d with | some s => toRunning (upd d E R) s | none => upd d E R) = _
+  split
+  · exact toRunning_upd ..
+  · rfl
+
+theorem toRunning_fields (d : Cfg) (s : SObj) : (toRunning d s).efs = d.efs ∧ (toRunning d s).ready = d.ready ∧
+    (∀ f, f ∈ (toRunning d s).efCb → f ∈ d.efCb) ∧ (toRunning d s).st = s := by
+  obtain ⟨e1, e2, e3, e4, e5, e6, e7, e8, e9⟩ := exitState_fields17 d
+  refine ⟨e6, e7, ?_, rfl⟩
+  intro f hf
+  have hf' : f ∈ (exitState d).efCb := hf
+  unfold exitState at hf'
+  split at hf'
+  · have := (List.mem_filter.mp hf').1
+    split at this <;> exact this
+  · exact hf'
+
+theorem firstStep_fields (d : Cfg) (hok : okFirst d = true) (hi : d.interrupt = none) (hl : terminal d.st.label = false)
+    (hc : d.closed = false) : (firstStep d).efs = d.efs ∧ (firstStep d).ready = d.ready ∧
+    (∀ f, f ∈ (firstStep d).efCb → f ∈ d.efCb) := by
+  rw [firstStep_eq d hok hi hl hc]
+  split
+  · exact ⟨(toRunning_fields d _).1, (toRunning_fields d _).2.1, (toRunning_fields d _).2.2.1⟩
+  · exact ⟨rfl, rfl, fun _ h => h⟩
+
+/-! ### the wake-up requests admitted while a tick is deferred, as changes of the passive part -/
+
+/-- wake-up requests admitted while the process is held at a step boundary in CREATED or RUNNING and a tick is deferred; `L`
+lists the external futures that carried a done-callback when the deferred tick started (the futures the program was waiting
+on): `resume` (the process is not WAITING: the request is refused on both sides), `call_soon`, the run of a non-raising
+scheduled callback, and the completion of a future that is not in `L` -/
+def pendOk (L : List Nat) : Ev → Bool
+  | .resume _ => true
+  | .callSoon _ => true
+  | .tickCb (.usercb false) => true
+  | .complete f _ => !L.contains f
+  | _ => false
+
+def newE (E : List EFut) : Ev → List EFut
+  | .complete f o => if E[f]? = some .pending then setAt E f o else E
+  | _ => E
+
+def newR (R : List Cb) : Ev → List Cb
+  | .callSoon r => R ++ [.usercb r]
+  | .tickCb (.usercb false) => R.erase (.usercb false)
+  | _ => R
+
+/-- `resume` changes nothing: the state is not WAITING, or its wait already has a result -/
+def ResumeNoop (x : Cfg) : Prop :=
+  NotWaiting x.st ∨ ∃ fn wf wk aw v, x.st = .waiting fn wf wk aw ∧ x.wfs[wf]? = some (.result v)
+
+theorem resume_noop (x : Cfg) (v : Option Val) (h : ResumeNoop x) : (resume x v).1 = x := by
+  unfold resume
+  rcases h with h | ⟨fn, wf, wk, aw, w, hst, hw⟩
+  · split
+    · rename_i fn wf wk aw hst; exact absurd hst (h _ _ _ _)
+    · rfl
+  · rw [hst]; dsimp only
+    unfold deliver
+    rw [hst]; dsimp only
+    rw [hw]
+
+theorem wake_upd (P : Prog) (x : Cfg) (L : List Nat) (e : Ev) (hok : pendOk L e = true) (hL : ∀ f, f ∈ x.efCb → f ∈ L)
+    (hr : ResumeNoop x) : (step P x e).1 = upd x (newE x.efs e) (newR x.ready e) := by
+  cases e with
+  | resume v =>
+    show (resume x v).1 = upd x x.efs x.ready
+    rw [resume_noop x v hr, upd_self]
+  | callSoon r => rfl
+  | complete f o =>
+    have hnf : x.efCb.contains f = false := by
+      cases hc : x.efCb.contains f with
+      | false => rfl
+      | true =>
+        have h1 : f ∈ L := hL f (List.contains_iff_mem.mp hc)
+        simp [pendOk] at hok
+        exact absurd h1 hok
+    show complete x f o = upd x (if x.efs[f]? = some .pending then setAt x.efs f o else x.efs) x.ready
+    unfold complete
+    split
+    · rename_i hp
+      dsimp only
+      rw [hnf, if_pos hp]
+      simp [upd]
+    · rename_i hp
+      have hp' : ¬ x.efs[f]? = some .pending := fun h => hp h
+      rw [if_neg hp', upd_self]
+  | tickCb cb =>
+    cases cb with
+    | usercb r =>
+      cases r with
+      | false =>
+        rw [show (step P x (.tickCb (.usercb false))).1 = tickCb x (.usercb false) from rfl, tickCb_usercb_eq]
+        show _ = upd x x.efs (x.ready.erase (.usercb false))
+        split
+        · rfl
+        · rename_i hc
+          have : Cb.usercb false ∉ x.ready := fun h => hc (List.contains_iff_mem.mpr h)
+          rw [List.erase_of_not_mem this, upd_self]
+      | true => cases hok
+    | _ => cases hok
+  | _ => cases hok
+
+theorem pendOk_isWake (L : List Nat) (e : Ev) (h : pendOk L e = true) : isWake e = true := by
+  cases e with
+  | tickCb cb =>
+    cases cb with
+    | usercb r => cases r <;> first | rfl | cases h
+    | _ => cases h
+  | _ => first | rfl | cases h
+
 end PMF
